@@ -250,8 +250,9 @@ func runSchemaCase(c *SCase) SObs {
 	leaks := map[string]bool{}
 	walkJSON(val, func(x any) {
 		str, ok := x.(string)
-		// a leaf that already occurs in the schema (also as part of a schema string) is not a disclosure
-		if !ok || len(str) < 3 || strings.Contains(allSchema.String(), str) {
+		// a leaf that already occurs in the schema (also as part of a schema string), or that is a
+		// fragment of the library's own fixed wording ("a b" in "must be a boolean"), is not a disclosure
+		if !ok || len(str) < 3 || strings.Contains(allSchema.String(), str) || strings.Contains(reasonWording, str) {
 			return
 		}
 		for _, rs := range o.Reasons {
@@ -592,3 +593,14 @@ func dedup(xs []string) []string {
 	}
 	return out
 }
+
+// the fixed wording of schema-error reasons and of the details-disabled message frame
+const reasonWording = `value must be an integer a number a boolean a string an array an object one of , ` +
+	`value is not one of the allowed values value matches more than one schema from "oneOf" (matches schemas at indices ) ` +
+	`value doesn't match any schema from "oneOf" doesn't match any schema from "anyOf" doesn't match all schemas from "allOf" ` +
+	`Value is not nullable number must be more than less than at least at most a multiple of ` +
+	`minimum string length is maximum string length is string doesn't match the regular expression the format ` +
+	`minimum number of items is maximum number of items is duplicate items found there must be at least at most properties ` +
+	`property is unsupported is missing input does not contain the discriminator property value of discriminator property is not a string has invalid value ` +
+	`cannot compile pattern Not an IP address IPv4 IPv6 (it's ) string doesn't match pattern value should be between and ` +
+	`Error at Doesn't match schema doesn't match schema due to: input does not match the schema floating point NaN Inf is not allowed | Or `
